@@ -218,7 +218,8 @@ impl Property for C20 {
         let big_hdr = rng.below(6) as u8;
         let big = if rng.chance(1, 150) {
             // around 64 KiB and 1 MiB (8 bytes per instruction): cheap enough to be common, with every header variant
-            let count = *rng.pick(&[8_190u32, 8_192, 131_068, 131_070, 131_071, 131_072, 131_073, 140_000]);
+            // (and line counts of the disassembly around round numbers: 4 header lines + one line per instruction)
+            let count = *rng.pick(&[8_190u32, 8_192, 9_995, 9_996, 65_531, 65_532, 99_995, 99_996, 99_997, 131_068, 131_070, 131_071, 131_072, 131_073, 140_000, 199_996]);
             Some((count, *rng.pick(&[0u32, 0x0002_0011, 0x0001_FFFF, 0x0001_0000])))
         } else if rng.chance(1, 4000) {
             // beyond 16 MiB
